@@ -395,8 +395,8 @@ def apply_model(m, o, created):
         kr = rec['keys'][kn]
         if created.get('cert') is None:
             return 'ok', 'unknown-name'
-        if created['cert'] in kr['certs']:
-            return 'raise', 'exists'
+        if created['cert'] in kr['certs'] or _find_cert(m, created['cert'])[2] is not None:
+            return 'raise', 'exists'        # certificate names are unique in the store, whichever key holds them
         kr['certs'][created['cert']] = created['cert_data']
         if kr['dcert'] is None:
             kr['dcert'] = created['cert']
@@ -647,6 +647,11 @@ class Runner:
         st_in = w.st.in_op
         w.st.in_op = False
         try:
+            if o.get('foreign_cert') and o.get('_cert'):
+                # an EXISTING certificate (name and data as stored, possibly of another key) imported under this key
+                ci, ckn, ckr = _find_cert(w.model, o['_cert'])
+                if ckr is not None:
+                    return {'cert': o['_cert'], 'cert_data': ckr['certs'][o['_cert']]}
             i, rec = _find_key(w.model, o['_key'])
             bits = rec['keys'][o['_key']]['bits'] if rec else b'\x00'
             issuer = o['_issuer']
@@ -727,7 +732,11 @@ class Runner:
             return 'ok', None
         if k == 'import_cert':
             i, rec = _find_key(m, o['_key'])
-            return ('raise', 'no-key') if rec is None else ('ok', None)
+            if rec is None:
+                return 'raise', 'no-key'
+            if o.get('foreign_cert') and o.get('_cert') and _find_cert(m, o['_cert'])[2] is not None:
+                return 'raise', 'exists'
+            return 'ok', None
         return 'ok', None
 
     # ---- behaviour under a fault ---------------------------------------------------------
@@ -1219,7 +1228,11 @@ def generate(rng, seed, tier='quick'):
             nkeys += 1
             ncerts += 1
         elif x < 0.44:
-            ops.append({'op': 'import_cert', 'key': rng.randint(0, 7), 'issuer': rng.randint(0, 7), 'n': rng.randint(0, 2)})
+            op = {'op': 'import_cert', 'key': rng.randint(0, 7), 'issuer': rng.randint(0, 7), 'n': rng.randint(0, 2)}
+            if rng.random() < 0.25:
+                op['foreign_cert'] = True
+                op['cert'] = rng.randint(0, 9)
+            ops.append(op)
             ncerts += 1
         elif x < 0.50:
             ops.append({'op': 'set_default_identity', 'id': rng.choice(ids)})
